@@ -314,7 +314,7 @@ func (e *Exec) execRange(s *ast.RangeStmt, label string, st *State, ctx *Ctx, k 
 		seq = "(ls " + coll + ")"
 		cons, hd, tl, nilc, snoc, seqSort = "LCons", "hd", "tl", "LNil", "snoc", "Lst"
 	case rkSList:
-		seq = coll
+		seq = "(sitems " + coll + ")"
 		cons, hd, tl, nilc, snoc, seqSort = "SCons", "shd", "stl", "SNil", "ssnoc", "SLst"
 	case rkRList:
 		seq = coll
